@@ -1,3 +1,4 @@
+pub mod astops;
 pub mod automata;
 pub mod gen;
 pub mod lang;
